@@ -11,6 +11,9 @@ pub mod sched;
 pub mod rtrnet;
 pub mod clibin;
 pub mod httpsrv;
+pub mod bx;
+pub mod bw;
+pub mod fz;
 pub mod c01;
 pub mod c02;
 pub mod c03;
